@@ -133,6 +133,29 @@ fn main() {
             println!("word {word:?}\nr1 {r1:?}\nr2 {r2:?}\nintermediate {mid:?} (re-reads as itself)\nstaged {staged:?}\nall at once {once:?}");
             0
         }
+        "combostats" => {
+            let d = gen::Data::load();
+            let mut o = oracle::Oracle::new(5);
+            let mut tally: std::collections::BTreeMap<String, u32> = Default::default();
+            for i in 0..3000u64 {
+                let mut r = prng::Rng::derive(7, 1, i);
+                let rule = gen::gen_combo_rule(&d, &mut r);
+                let words: Vec<String> = (0..4).map(|_| gen::gen_word(&d, &mut r)).collect();
+                let t = std::time::Instant::now();
+                let a = o.run(&oracle::Req { rules: vec![instance::Group::anon(vec![rule.clone()])], words, into: vec![], from: vec![] });
+                let k = match &a {
+                    oracle::Ans::Ok(_) => "ok".to_string(),
+                    oracle::Ans::Err(e) => format!("err {}", e.lines().next().unwrap_or("").chars().take(28).collect::<String>()),
+                    x => { println!("{x:?} {rule}"); format!("{x:?}") }
+                };
+                if t.elapsed().as_millis() > 300 { println!("slow {} ms: {rule}", t.elapsed().as_millis()); }
+                *tally.entry(k).or_default() += 1;
+            }
+            let mut v: Vec<_> = tally.into_iter().collect();
+            v.sort_by_key(|x| std::cmp::Reverse(x.1));
+            for (k, n) in v.iter().take(12) { println!("{n:5} {k}"); }
+            0
+        }
         "wordstats" => {
             let d = gen::Data::load();
             let mut o = oracle::Oracle::new(5);
